@@ -423,6 +423,52 @@ func extractFragment(pkg *packages.Package, ct *Contract, fi *fragInfo, overlay 
 			return true
 		})
 	}
+	// variables of the enclosing function that the contract names are parameters of
+	// the fragment even where the region (no longer) mentions them, and fragOut_x is
+	// a result even where the region (no longer) assigns x: the contract then says
+	// the same thing about a region that was changed to leave them alone
+	if sc := pkg.Types.Scope().Innermost(from); sc != nil {
+		seenName := map[string]bool{}
+		consider := func(e ast.Expr) {
+			if e == nil {
+				return
+			}
+			ast.Inspect(e, func(n ast.Node) bool {
+				id, ok := n.(*ast.Ident)
+				if !ok {
+					return true
+				}
+				name := id.Name
+				out := false
+				if strings.HasPrefix(name, "fragOut_") {
+					name, out = name[len("fragOut_"):], true
+				}
+				if seenName[id.Name] {
+					return true
+				}
+				seenName[id.Name] = true
+				_, obj := sc.LookupParent(name, from)
+				v, ok := obj.(*types.Var)
+				if !ok || v.IsField() || !(v.Pos() >= fd.Pos() && v.Pos() < fd.End()) || inRegion(v.Pos()) {
+					return true
+				}
+				if _, ok := frees[v]; !ok {
+					frees[v] = &fv{v, from}
+				}
+				if out {
+					assignedFree = append(assignedFree, name)
+				}
+				return true
+			})
+		}
+		for _, cl := range ct.Clauses {
+			switch cl.Kind {
+			case "requires", "ensures", "exits_ensures", "assert_before_call", "assert_after_call":
+				consider(cl.Expr)
+				consider(cl.When)
+			}
+		}
+	}
 	var fl []*fv
 	for _, f := range frees {
 		fl = append(fl, f)
